@@ -199,7 +199,10 @@ def run(ctx):
                         for o in other:
                             scale = max(scale, abs(w[1]) / max(o[1], 1e-300))
                 if "flux" in kinds or "conv" in kinds or "film" in kinds:
-                    bound += (g.dr / (2 * g.ri)) * scale * 2.0
+                    # (f / (1 - f) instead of f: on very coarse grids, f = dr/(2 r_i) up to 0.4, the wall factor
+                    #  1/(1 - f) is no longer close to 1 + f)
+                    f = g.dr / (2 * g.ri)
+                    bound += f / (1 - f) * scale * 2.0
                 if np.max(np.abs(p1 - lp)) > bound:
                     findings.append((cfg, "steady solve is %.3g away from the logarithmic profile, allowed %.3g (inner=%s outer=%s)"
                                      % (np.max(np.abs(p1 - lp)), bound, kinds[0], kinds[1])))
